@@ -477,12 +477,21 @@ func (s *stdioTransport) processMessage(ctx context.Context, line string, writer
 	var rawMessage json.RawMessage
 	if err := json.Unmarshal([]byte(line), &rawMessage); err != nil {
 		s.logger.Errorf("Invalid JSON received: %v", err)
-		return nil
+		// The peer must not be left waiting: answer a parse error (the id is unknown).
+		return s.writeResponse(newJSONRPCErrorResponse(nil, ErrCodeParse, "Parse error", nil), writer)
 	}
 
 	msgType, err := parseJSONRPCMessageType(rawMessage)
 	if err != nil {
 		s.logger.Errorf("Error parsing message type: %v", err)
+		// Not a JSON-RPC 2.0 message: answer an invalid-request error unless it cannot be a request at all.
+		var probe map[string]interface{}
+		if json.Unmarshal(rawMessage, &probe) != nil {
+			return s.writeResponse(newJSONRPCErrorResponse(nil, ErrCodeInvalidRequest, "Invalid Request", nil), writer)
+		}
+		if id, hasID := probe["id"]; hasID && id != nil {
+			return s.writeResponse(newJSONRPCErrorResponse(id, ErrCodeInvalidRequest, "Invalid Request", nil), writer)
+		}
 		return nil
 	}
 
